@@ -38,6 +38,7 @@ Nb ::= BIT STRING { a(0), b(1), c(5) }
 Bs ::= BMPString
 Us ::= UniversalString
 Mix ::= SEQUENCE { o Oid, r Re OPTIONAL, s SET OF Oid, n Nb DEFAULT {a}, t Ut OPTIONAL }
+Nl ::= SEQUENCE { a NULL, b SEQUENCE OF NULL, c CHOICE { n NULL, f BOOLEAN }, d NULL OPTIONAL, e BOOLEAN }
 '''
 OIDS = ['2.999.3', '2.999.4.1', '1.3.1079', '2.100.5', '1.2.840.113549.1.1', '2.5.4.3', '0.9.2342', '2.999', '1.3.6.1.4.1.128.300', '2.48.1.1']
 REALS = [0.0, 1.5, -2.25, 1e10, 1e-300, 1.7976931348623157e308, 5e-324, float('inf'), float('-inf'), 3.0, 0.1]
@@ -64,6 +65,11 @@ class Pool:
             return r.choice(NBS)
         if t in ('Bs', 'Us'):
             return r.choice(TEXTS)
+        if t == 'Nl':
+            v = {'a': None, 'b': [None] * r.randrange(3), 'c': r.choice([('n', None), ('f', True)]), 'e': r.random() < 0.5}
+            if r.random() < 0.5:
+                v['d'] = None
+            return v
         v = {'o': r.choice(OIDS), 's': [r.choice(OIDS) for _ in range(r.randrange(4))]}
         if r.random() < 0.5:
             v['r'] = r.choice(REALS)
@@ -261,7 +267,9 @@ def make_ops(rng, spec, types, n):
 
 def do(spec, op):
     kind, name, arg = op
-    if kind == 'enc':
+    if kind.startswith('enc@'):
+        r = impl.encode(spec, name, arg, limit=20, indent=int(kind[4:]))      # text codecs: pretty-printed output
+    elif kind == 'enc':
         r = impl.encode(spec, name, arg, limit=20)
     else:
         r = impl.decode(spec, name, arg, limit=20)
@@ -293,10 +301,13 @@ def run(ctx):
         tree = {'v': 1, 'kids': [{'v': 2}, {'v': 3, 'kids': [{'v': 4}]}]}
         shared = {'a': 1, 'c': [2, 3]}
         pool = Pool(rng)
-        types = [('A', t, g), ('Tree', None, tree), ('Shared', None, shared)] + [(n, n, pool) for n in ('Oid', 'Oid', 'Mix', 'Mix', 'Re', 'Ut', 'Gt', 'Nb', 'Bs', 'Us')]
+        types = [('A', t, g), ('Tree', None, tree), ('Shared', None, shared)] + [(n, n, pool) for n in ('Oid', 'Oid', 'Mix', 'Mix', 'Re', 'Ut', 'Gt', 'Nb', 'Bs', 'Us', 'Nl', 'Nl')]
         ops = make_ops(rng, spec, types, ctx.n(30, 50))
         if codec == 'gser':
             ops = [op for op in ops if op[0] == 'enc'] or [('enc', 'Tree', tree)]
+        if codec in ('jer', 'xer', 'gser'):
+            # the same call with and without pretty-printing, interleaved: layout must not leave anything behind in the specification
+            ops = [(('enc@%d' % rng.choice([0, 2, 4])) if op[0] == 'enc' and rng.random() < 0.5 else op[0], op[1], op[2]) for op in ops]
         # oracle: every op alone on a fresh specification
         oracle = pristine.results(text, codec, ops)
         if any(o[0] == 'err' and o[1].startswith('oracle:') for o in oracle):
@@ -320,7 +331,7 @@ def run(ctx):
                 if res != oracle[i]:
                     ctx.violation('%s: call %d of a sequence gives a different result than the same call on a fresh specification' % (codec, i),
                                   {'module': text, 'codec': codec, 'ops': [repr(o)[:300] for o in ops[:i + 1]], 'got': res, 'alone': oracle[i]})
-                if op[0] == 'enc' and repr(op[2]) != repr(arg_before):
+                if op[0].startswith('enc') and repr(op[2]) != repr(arg_before):
                     ctx.violation('%s: encode modified its input value' % codec, {'module': text, 'before': repr(arg_before)[:500], 'after': repr(op[2])[:500]})
             fp1 = fingerprint(spec)
             if fp1 != fp0:
@@ -339,7 +350,9 @@ def run(ctx):
                         continue
                     kind, name, arg = ops[i]
                     try:
-                        if kind == 'enc':
+                        if kind.startswith('enc@'):
+                            results[i] = ('ok', repr(bytes(spec.encode(name, arg, indent=int(kind[4:])))))
+                        elif kind == 'enc':
                             results[i] = ('ok', repr(bytes(spec.encode(name, arg))))
                         else:
                             results[i] = ('ok', repr(spec.decode(name, arg)))
